@@ -882,6 +882,12 @@ func (w *Worker) doNextTask(ctx context.Context, taskNode *TaskNode, b *Batch, a
 			return err
 		}
 
+		// A nack vote of a processor task inside one of the branches may be
+		// handed to the parent later, by the vote of another branch (see
+		// multiAckNacker.releaseLocked): tell the tally which task IDs are
+		// processors, so a refusal of such a nack stays fatal on that path too.
+		multiAcker.processorTaskIDs = processorTaskIDsBelow(taskNode)
+
 		p := pool.New().WithErrors()
 		for _, nextTask := range taskNode.Next {
 			branchBatch := b.clone()
@@ -908,6 +914,24 @@ func (w *Worker) doNextTask(ctx context.Context, taskNode *TaskNode, b *Batch, a
 
 		return nil
 	}
+}
+
+// processorTaskIDsBelow collects the IDs of all processor tasks in the
+// subtrees below node (following Next directly, so shared subtrees are
+// included).
+func processorTaskIDsBelow(node *TaskNode) map[string]bool {
+	ids := map[string]bool{}
+	var walk func(n *TaskNode)
+	walk = func(n *TaskNode) {
+		for _, next := range n.Next {
+			if _, ok := next.Task.(*ProcessorTask); ok {
+				ids[next.Task.ID()] = true
+			}
+			walk(next)
+		}
+	}
+	walk(node)
+	return ids
 }
 
 func (w *Worker) Ack(ctx context.Context, batch *Batch) error {
@@ -1283,6 +1307,15 @@ type multiAckNacker struct {
 	nackErr    []error
 	nackTaskID []string
 
+	// processorTaskIDs holds the IDs of the processor tasks inside the
+	// branches (set by Worker.doNextTask, may be nil). A nack that came from
+	// one of them and that the parent refuses is fatal, exactly like on the
+	// single-destination path (see doTaskAttempt's RecordFlagNack case): the
+	// refusal is deterministic, recovering would re-read the same record and
+	// fail the same way forever. Without this the classification depended on
+	// which branch's vote happened to trigger the release.
+	processorTaskIDs map[string]bool
+
 	// released is the count of leading positions (a prefix of positions)
 	// that have already been handed to the parent. Positions are only ever
 	// released in order, released..len(positions), never out of order
@@ -1482,6 +1515,9 @@ func (m *multiAckNacker) releaseLocked(ctx context.Context) error {
 			// Requirement 5: a fatal DLQ error (nack threshold exceeded)
 			// must surface exactly like it does on the single-destination
 			// path, so the branch pool errors out and the worker tombs.
+			if m.processorTaskIDs[m.nackTaskID[idx]] && !cerrors.IsFatalError(err) {
+				return cerrors.FatalError(cerrors.Errorf("error executing processor: %w", err))
+			}
 			return err
 		}
 		m.released = idx + 1
